@@ -717,16 +717,19 @@ impl<K: CacheKey + 'static> AsyncCache<K> for DiskCache<K> {
             .write()
             .map_err(|_| CacheError::LockTimeout("index write lock".to_string()))?;
 
-        // Delete all files
+        // Delete all files and subtract what is removed while the index lock is held.
+        // Storing 0 into the counters after the lock is released would overwrite the
+        // update of a put that indexed its entry in between.
         for entry in index.values() {
             let _ = fs::remove_file(&entry.file_path);
+            self.entry_count.fetch_sub(1, Ordering::Relaxed);
+            self.disk_usage
+                .fetch_sub(entry.size_bytes as u64, Ordering::Relaxed);
         }
 
         index.clear();
         drop(index); // Release lock early to reduce contention
 
-        self.entry_count.store(0, Ordering::Relaxed);
-        self.disk_usage.store(0, Ordering::Relaxed);
         self.metrics.reset();
 
         // Also clean up any remaining files and subdirectories
